@@ -4,7 +4,6 @@ import (
 	"fmt"
 	"go/ast"
 	"go/types"
-	"strings"
 )
 
 const cdxLib = "CycloneDX/cyclonedx-go"
@@ -26,6 +25,17 @@ func runC02(c *Ctx) {
 	cdxLoops(c, "C02")
 	cdxTreeAssembly(c, "C02")
 	placedAttached(c)
+	lifecyclePhaseRule(c)
+	var conv []*declInfo
+	for _, n := range []string{"serializers.(*CDX).nodeToComponent", "unserializers.(*CDX).componentToNode"} {
+		if d := c.decl("verbatim-copy-guards", n); d != nil {
+			conv = append(conv, d)
+		}
+	}
+	if len(conv) == 2 {
+		verbatimCopyGuards(c, "verbatim-copy-guards", conv[:1], "Node")
+		verbatimCopyGuards(c, "verbatim-copy-guards", conv[1:], "Component")
+	}
 }
 
 func cdxTables(c *Ctx) {
@@ -213,24 +223,32 @@ func cdxAutoRef(c *Ctx) {
 		return
 	}
 	prefix := constVal(prefC).str()
-	// keys of the protobomPrefixes map literal
+	// the flags the generator knows: the constant table (map keys or list elements) that
+	// NewNodeIdentifier consults — found by use, whatever it is called and however it is shaped
 	keys := map[string]bool{}
-	for _, f := range sb.Syntax {
-		ast.Inspect(f, func(n ast.Node) bool {
-			vs, ok := n.(*ast.ValueSpec)
+	if gd := c.decl(R, "sbom.NewNodeIdentifier"); gd != nil {
+		ev := &evaluator{p: c.P}
+		ast.Inspect(gd.fd.Body, func(n ast.Node) bool {
+			id, ok := n.(*ast.Ident)
 			if !ok {
 				return true
 			}
-			for i, nm := range vs.Names {
-				if nm.Name == "protobomPrefixes" && i < len(vs.Values) {
-					if cl, ok := vs.Values[i].(*ast.CompositeLit); ok {
-						for _, el := range cl.Elts {
-							if kv, ok := el.(*ast.KeyValueExpr); ok {
-								if v, ok := constOf(sb, kv.Key); ok && v.isStr() {
-									keys[v.str()] = true
-								}
-							}
-						}
+			pv, isVar := gd.pkg.TypesInfo.Uses[id].(*types.Var)
+			if !isVar || pv.Pkg() == nil || pv.Parent() != pv.Pkg().Scope() {
+				return true
+			}
+			tbl := ev.packageTable(pv)
+			switch tbl.k {
+			case vMap:
+				for _, k := range tbl.mkey {
+					if k.isStr() {
+						keys[k.str()] = true
+					}
+				}
+			case vList:
+				for _, k := range tbl.list {
+					if k.isStr() {
+						keys[k.str()] = true
 					}
 				}
 			}
@@ -256,74 +274,96 @@ func cdxAutoRef(c *Ctx) {
 	}
 	c.check(keys[flag], R, "cdx-auto-ref#flag-known-to-generator", flagPos,
 		fmt.Sprintf("flag %q is a key of protobomPrefixes", flag), fmt.Sprintf("flag %q is not a key of protobomPrefixes %v: generated identifiers would not carry it as a flag", flag, keys))
-	// eraser literals
-	var hasPrefixLit, containsLit []string
-	var pos string
+	// the eraser's decision, folded: the statements of clearAutoRefs' loop body that lead to the
+	// store `….BOMRef = ""` are evaluated with the element's BOMRef bound to sample identifiers.
+	// A generated identifier (<prefix>-<flag>--<seed>) must be erased; identifiers that merely
+	// resemble one must be kept, or the component loses the ref its dependencies point at.
+	var eraser *declInfo
+	var decision ast.Stmt
+	var prelude []ast.Stmt // statements of the loop body ahead of the decision (locals it uses)
 	for _, d := range wr {
-		for _, cs := range callsIn(d.pkg, d.fd.Body) {
-			full := cs.callee.FullName()
-			if len(cs.call.Args) != 2 {
-				continue
-			}
-			x := cs.call.Args[0]
-			isRef := false
-			ast.Inspect(x, func(n ast.Node) bool {
-				if sel, ok := n.(*ast.SelectorExpr); ok && sel.Sel.Name == "BOMRef" {
-					isRef = true
-				}
-				if id, ok := n.(*ast.Ident); ok && id.Name == "flags" {
-					isRef = true
-				}
+		ast.Inspect(d.fd.Body, func(n ast.Node) bool {
+			as, ok := n.(*ast.AssignStmt)
+			if !ok || len(as.Lhs) != 1 || len(as.Rhs) != 1 {
 				return true
-			})
-			v, ok := constOf(d.pkg, cs.call.Args[1])
-			if !ok || !v.isStr() || !isRef {
-				continue
 			}
-			switch full {
-			case "strings.HasPrefix":
-				hasPrefixLit = append(hasPrefixLit, v.str())
-				pos = c.P.Pos(cs.call.Pos())
-			case "strings.Contains":
-				containsLit = append(containsLit, v.str())
+			sel, ok := as.Lhs[0].(*ast.SelectorExpr)
+			if !ok || sel.Sel.Name != "BOMRef" {
+				return true
 			}
-		}
+			if v, isC := constOf(d.pkg, as.Rhs[0]); !isC || !v.isStr() || v.str() != "" {
+				return true
+			}
+			// the outermost statement of the innermost loop body that contains the store
+			chain := enclosing(d.fd.Body, as)
+			for i, y := range chain {
+				var body *ast.BlockStmt
+				switch l := y.(type) {
+				case *ast.RangeStmt:
+					body = l.Body
+				case *ast.ForStmt:
+					body = l.Body
+				}
+				if body == nil || i+2 >= len(chain) {
+					continue
+				}
+				eraser = d
+				decision, _ = chain[i+2].(ast.Stmt)
+				prelude = nil
+				for _, st := range body.List {
+					if st == decision {
+						break
+					}
+					prelude = append(prelude, st)
+				}
+			}
+			return true
+		})
 	}
-	if len(hasPrefixLit) != 1 || len(containsLit) != 1 {
-		c.undecided(R, "cdx-auto-ref#eraser-idiom", pos, fmt.Sprintf("auto-reference eraser idiom not recognised (HasPrefix literals %v, Contains literals %v)", hasPrefixLit, containsLit))
+	if eraser == nil || decision == nil {
+		c.undecided(R, "cdx-auto-ref#eraser", "-", "no loop in the CycloneDX writer stores the empty string into a component's BOMRef")
 		return
 	}
-	c.check(hasPrefixLit[0] == prefix+"-", R, "cdx-auto-ref#prefix", pos,
-		fmt.Sprintf("eraser prefix %q = NodeIdentifierPrefix+\"-\"", hasPrefixLit[0]),
-		fmt.Sprintf("eraser tests prefix %q but generated identifiers start with %q", hasPrefixLit[0], prefix+"-"))
-	// the flag test applies to the flag segment (the part before the first "--"), not to the
-	// whole identifier: user seeds containing "-auto" must not be erased
-	segOK := false
-	for _, d := range wr {
-		defs := singleDefs(d.pkg, d.fd.Body)
-		for _, cs := range callsIn(d.pkg, d.fd.Body) {
-			if cs.callee.FullName() != "strings.Contains" || len(cs.call.Args) != 2 {
-				continue
+	pos := c.P.Pos(decision.Pos())
+	erased := func(ref string) (bool, string) {
+		ev := &evaluator{p: c.P}
+		fr := &frame{pkg: eraser.pkg, env: map[types.Object]value{}, fieldOverride: map[string]value{"BOMRef": cstr(ref)}}
+		fl, vals := ev.block(fr, append(append([]ast.Stmt{}, prelude...), decision))
+		if fl == flowStuck {
+			why := "not foldable"
+			if len(vals) > 0 {
+				why = vals[0].why
 			}
-			if v, ok := constOf(d.pkg, cs.call.Args[1]); !ok || !v.isStr() || v.str() != containsLit[0] {
-				continue
-			}
-			if ix, ok := cs.call.Args[0].(*ast.IndexExpr); ok {
-				if k, ok := constOf(d.pkg, ix.Index); ok && k.isInt() && k.int() == 0 {
-					if def, ok := defs[objOf(d.pkg, ix.X)]; ok {
-						if sp, ok := def.(*ast.CallExpr); ok && len(sp.Args) == 2 {
-							if sep, ok := constOf(d.pkg, sp.Args[1]); ok && sep.isStr() && sep.str() == "--" && strings.Contains(types.ExprString(sp.Args[0]), "BOMRef") {
-								segOK = true
-							}
-						}
-					}
-				}
-			}
+			return false, why
+		}
+		v, stored := fr.fieldStores["BOMRef"]
+		return stored && v.isStr() && v.str() == "", ""
+	}
+	type sample struct {
+		ref   string
+		erase bool
+		why   string
+	}
+	samples := []sample{
+		{prefix + "-" + flag + "--000000001", true, "an identifier generated by the reader"},
+		{prefix + "-" + flag + "--a--b", true, "a generated identifier whose seed contains the separator"},
+		{prefix + "-node--" + flag + "make-1.16", false, "a generated node identifier whose seed merely contains the flag text"},
+		{prefix + "--my-" + flag + "--x", false, "an unflagged identifier whose seed contains the flag text"},
+		{"my-" + flag + "--000000001", false, "a user identifier without the generator's prefix"},
+		{"pkg:generic/" + flag + "make@1.16", false, "a user identifier"},
+		{"", false, "the empty reference"},
+	}
+	for _, sm := range samples {
+		got, stuck := erased(sm.ref)
+		key := fmt.Sprintf("cdx-auto-ref#%q", sm.ref)
+		if stuck != "" {
+			c.undecided(R, key, pos, "the eraser's decision could not be folded for this identifier: "+stuck)
+			continue
+		}
+		if sm.erase {
+			c.check(got, R, key, pos, "erased: "+sm.why, fmt.Sprintf("%q (%s) is not erased before output: generated references leak into the CycloneDX document", sm.ref, sm.why))
+		} else {
+			c.check(!got, R, key, pos, "kept: "+sm.why, fmt.Sprintf("%q (%s) is erased: the component loses its bom-ref while dependencies still point at it", sm.ref, sm.why))
 		}
 	}
-	c.check(segOK, R, "cdx-auto-ref#flag-segment", pos, "the flag is looked for in the segment before the first \"--\" only",
-		"the auto flag is not tested on strings.Split(ref, \"--\")[0]: an identifier generated from a user seed that merely contains the flag text (protobom--automake-1.16) loses its bom-ref while dependencies still point at it")
-	c.check(containsLit[0] == "-"+flag || strings.TrimPrefix(containsLit[0], "-") == flag, R, "cdx-auto-ref#flag", pos,
-		fmt.Sprintf("eraser flag %q matches generator flag %q", containsLit[0], flag),
-		fmt.Sprintf("eraser looks for %q but the reader generates identifiers flagged %q", containsLit[0], flag))
 }
